@@ -367,6 +367,24 @@ def get_table_own_first(gt) -> bool:
             and all(has_cond(c, "self.table is None", True) for _v, c in none))
 
 
+def lex_identifier_qualified(ctx: Ctx) -> None:
+    """`scope.member`: after the dot the member name is scanned with the same character set as the first segment (digits included)"""
+    li = ctx.repo.func("a816.parse.scanner_states", "lex_identifier")
+    from ..match import canon as _canon_li
+
+    runs = [c for c in calls_in(li.node) if call_name(c) == "s.accept_run" and c.args]
+    first_run = _canon_li(li.node, runs[0].args[0]) if runs else None
+    dots = [s for s in walk_no_nested(li.node) if isinstance(s, ast.If) and unparse(s.test) in ("s.peek() == '.'", "s.accept('.')")]
+    ok = False
+    if len(dots) == 1:
+        body = dots[0].body
+        if unparse(dots[0].test) == "s.peek() == '.'" and len(body) == 2 and unparse(body[0]) == "s.next()":
+            body = body[1:]
+        ok = len(body) == 1 and isinstance(body[0], ast.Expr) and call_name(body[0].value) == "s.accept_run" \
+            and _canon_li(li.node, body[0].value.args[0]) == first_run
+    ctx.check(ok, "lex_identifier:qualified", "an identifier may carry one `.name` segment (scopename.name), scanned like the first segment")
+
+
 def r4_export(ctx: Ctx) -> None:
     rs = ctx.repo.func(SYMBOLS, "Resolver.restore_scope")
     site = _export_site(rs)
@@ -387,15 +405,7 @@ def r4_export(ctx: Ctx) -> None:
     raises = [n for n in walk_no_nested(rs.node) if isinstance(n, ast.Raise)]
     ok_raise = len(raises) == 1 and ("self.current_scope.parent is None", True) in g2.path_conditions(g2.node_of(raises[0]), rs.node)
     ctx.check(ok and ok_raise, "Resolver.restore_scope:pop", f"leaves to the parent scope; leaving the root raises; found: {show(pf)}")
-    li = ctx.repo.func("a816.parse.scanner_states", "lex_identifier")
-    dots = [s for s in walk_no_nested(li.node) if isinstance(s, ast.If) and unparse(s.test) == "s.peek() == '.'"]
-    from ..match import canon as _canon_li
-
-    runs = [c for c in calls_in(li.node) if call_name(c) == "s.accept_run" and c.args]
-    first_run = _canon_li(li.node, runs[0].args[0]) if runs else None
-    ok = len(dots) == 1 and len(dots[0].body) == 2 and unparse(dots[0].body[0]) == "s.next()" and isinstance(dots[0].body[1], ast.Expr) \
-        and call_name(dots[0].body[1].value) == "s.accept_run" and _canon_li(li.node, dots[0].body[1].value.args[0]) == first_run
-    ctx.check(ok, "lex_identifier:qualified", "an identifier may carry one `.name` segment (scopename.name)")
+    lex_identifier_qualified(ctx)
     al = ctx.repo.func(SYMBOLS, "Scope.add_label")
     body = canonical_statements(al.node)
     p = al.params()
@@ -517,4 +527,12 @@ def ru_names_bound(ctx: Ctx) -> None:
     names_rule(ctx)
 
 
-RULES = [r1_generator_pairing, r2_replay_agreement, r3_lookup_chain, r4_export, r5_who_may_write, r6_macro_arguments_in_caller_scope, r7_symbol_values_stored_verbatim, r8_names_lex_alike_everywhere, rb_binding_agreement, rm_no_process_lifetime_results, ru_names_bound]
+
+def r9_conditionals_open_no_scope(ctx: Ctx) -> None:
+    """`.if` selects statements of the enclosing scope: neither branch opens a scope of its own (C10.R1)"""
+    from .c10 import r1_if
+
+    r1_if(ctx)
+
+
+RULES = [r1_generator_pairing, r2_replay_agreement, r3_lookup_chain, r4_export, r5_who_may_write, r6_macro_arguments_in_caller_scope, r7_symbol_values_stored_verbatim, r8_names_lex_alike_everywhere, r9_conditionals_open_no_scope, rb_binding_agreement, rm_no_process_lifetime_results, ru_names_bound]
